@@ -93,6 +93,7 @@ type MainFinal struct {
 	Zombies   int              `json:"zombies"` // DB objects that hold a SQLite handle after every Close returned
 	Objects   int              `json:"objects"`
 	Acks      []AckObs         `json:"acks,omitempty"` // acknowledgements observed while the writers were running
+	Restores  []RestoreObs     `json:"restores,omitempty"` // Restore(latest) calls made while everything else was running
 	LastK     int64            `json:"last_k"`         // highest ledger value whose Commit returned to the application
 	AppCkpts  int64            `json:"app_ckpts"`      // application-side wal_checkpoint(TRUNCATE|RESTART|PASSIVE) calls that completed
 }
@@ -103,6 +104,18 @@ type MainFinal struct {
 // the call was issued; Seq is the archive's publication counter read right after the
 // call returned (every file the acknowledgement can rely on was published, and
 // therefore archived, before that).
+// RestoreObs is one Restore(latest) that ran concurrently with replication, compaction
+// and retention and reported success: the logical dump of what it produced.
+type RestoreObs struct {
+	T1     int64  `json:"t1"`
+	K      int64  `json:"k"`
+	Hash   string `json:"hash"`
+	Integ  string `json:"integ"`
+	Poison int    `json:"poison"`
+	K0     int64  `json:"k0"`   // ledger value of the newest transaction acknowledged (mid-run ack) before the restore started
+	Left   bool   `json:"left"` // a failed restore left something at its output path
+}
+
 type AckObs struct {
 	Op  string `json:"op"`
 	K0  int64  `json:"k0"`
@@ -177,6 +190,9 @@ type mainDB struct {
 
 	commits, rollbacks, busy atomic.Int64
 
+	restMu   sync.Mutex
+	restores []RestoreObs
+	restN    atomic.Int64
 	lastK    atomic.Int64 // highest ledger value whose Commit has returned
 	appCkpts atomic.Int64
 	ackMu sync.Mutex
@@ -1093,6 +1109,9 @@ func (c *child) run(fin *Final) {
 		mf.Acks = m.acks
 		m.ackMu.Unlock()
 		mf.LastK, mf.AppCkpts = m.lastK.Load(), m.appCkpts.Load()
+		m.restMu.Lock()
+		mf.Restores = m.restores
+		m.restMu.Unlock()
 	}
 	fin.Mains = finals
 	// application connections go away, then nothing of ours or litestream's may be left
@@ -1259,6 +1278,46 @@ func (c *child) opTable() []opDef {
 				return err
 			})
 		})},
+		{"Restore-latest", 2, func(g *gctx) {
+			// what `litestream restore` does from another process while the daemon keeps
+			// replicating, compacting and enforcing retention: an error is acceptable (files
+			// it planned with may be gone), success must be a committed state of the source
+			m := c.pickMain(g)
+			n := m.restN.Add(1)
+			out := filepath.Join(c.dir, fmt.Sprintf("restore-%s-%d.db", m.name, n))
+			rep := litestream.NewReplicaWithClient(nil, file.NewReplicaClient(m.rep))
+			opt := litestream.NewRestoreOptions()
+			opt.OutputPath = out
+			ctx, cancel := ctxT(t5)
+			defer cancel()
+			err := c.call(g, "Restore-latest", m.name, func() error { return rep.Restore(ctx, opt) })
+			defer func() {
+				for _, sfx := range []string{"", ".tmp", "-wal", "-shm", "-txid"} {
+					_ = os.Remove(out + sfx)
+				}
+			}()
+			if err != nil {
+				if _, serr := os.Stat(out); serr == nil {
+					m.restMu.Lock()
+					m.restores = append(m.restores, RestoreObs{T1: c.now(), Left: true, Integ: short(err)})
+					m.restMu.Unlock()
+				}
+				return
+			}
+			d, derr := sq.DumpDB(out, true)
+			o := RestoreObs{T1: c.now()}
+			if derr != nil {
+				o.Integ = "unreadable: " + short(derr)
+				o.K = -1
+			} else {
+				o.K, o.Hash, o.Integ, o.Poison = d.K, d.Hash, d.Integ, d.Poison
+			}
+			m.restMu.Lock()
+			if len(m.restores) < 400 {
+				m.restores = append(m.restores, o)
+			}
+			m.restMu.Unlock()
+		}},
 		{"CRC64", 2, onOpen("CRC64", func(g *gctx, m *mainDB, d *litestream.DB) {
 			ctx, cancel := ctxT(t5)
 			defer cancel()
